@@ -2,7 +2,10 @@
 ids / interval of a scaled layout (algorithm => contract, fields unique, range contract <=> the property's
 quantified sentences, three named deviations violate it); the real IDFields / IDParse / IDParseEx /
 CnStyle / FromChStyle / TimeIDRange / TimeBetweenID are run on boundary-biased ids and intervals under every
-layout and epochs from 2000 on, every result validated by SnowCodec_Trace."""
+layout and epochs from 2000 to 9000 (installed through the public Setup or the hook), every result validated by
+SnowCodec_Trace.  Date forms are kept as returned and decoded (twice) only after all the others were
+rendered, for every second layout; the functions are also called by 4-8 goroutines at once; a call that
+does not return and a panic are events of their own kind."""
 
 
 def run(ctx):
@@ -40,7 +43,8 @@ def run(ctx):
         "limbs (operators checked against integer arithmetic in the scaled exhaustive run)",
         "second truncation of the interval endpoints is time.Time.Unix() of the arguments (Go standard library)",
         "the calendar rendering inside the 24-character form is not specified, only length, digits and the "
-        "round trip (as in the property); epochs 2000..2200, ids non-negative, interval ends within the "
+        "round trip (as in the property); epochs 2000..9000 (Setup/UseEpoch only for epochs before 2262, "
+        "which is as far as it can express them - reported), ids non-negative, interval ends within the "
         "timestamp width",
     ]
     return ctx.finish(
